@@ -396,6 +396,8 @@ class SymWorld:
     def __init__(self, oracle: Optional[Oracle] = None):
         self.oracle = oracle or Oracle()
         self.effects: List[tuple] = []
+        self.lengths: Dict[str, int] = {}
+        self.members: Dict[str, set] = {}
 
 
 class Sym(Stub):
@@ -428,9 +430,7 @@ class Sym(Stub):
             base = f"{op}({canon(a[0])})"
         else:
             base = f"({canon(a[0])} {op} {canon(a[1])})"
-        if self._cols:
-            base += "{" + ", ".join(f"{k} := {canon(v)}" for k, v in self._cols.items()) + "}"
-        return base
+        return base  # column stores are *state* of the frame, reported separately (a stored value may mention the frame itself)
 
     __repr__ = key
 
@@ -499,8 +499,18 @@ class Sym(Stub):
     def __iter__(self):
         raise Unsupported(f"iteration over the symbolic value {self.key()[:60]}")
 
-    def __len__(self):
-        raise Unsupported(f"len() of the symbolic value {self.key()[:60]}")
+    def __contains__(self, x):
+        members = getattr(self._w, "members", {}).get(self.key())
+        if members is not None:
+            return x in members  # membership fixed by the scenario (e.g. which columns the frame has)
+        return self._w.oracle.choose(f"{canon(x)} in {self.key()}")
+
+    def _abs_len(self):
+        """len(x): a concrete length when the world fixes one for this term, else a symbolic number (its comparisons are explored)."""
+        n = self._w.lengths.get(self.key()) if hasattr(self._w, "lengths") else None
+        if n is not None:
+            return n
+        return Sym(self._w, "call", sym_root(self._w, "len"), (self,), ())
 
 
 def sym_root(w: SymWorld, name: str, classes=()) -> Sym:
